@@ -245,6 +245,17 @@ def layout_texts():
     for k, body in enumerate(["    zoe = Party(\"Zo\u00eb\")\n    age = SecretInteger(Input(\"\u00e2ge\", zoe))\n", "    bank = Party(name=\"Soci\u00e9t\u00e9 G\u00e9n\u00e9rale\")\n",
                               "    \u5408\u8a08 = x + x\n    z = \u5408\u8a08 * y\n", "    s = \"\u5408\u8a08\" + str(1)\n    t = x + x\n"]):
         out.append((f"non-ascii-{k}", H + body + T))
+    # tenth seeding round: integer constants too large for int -> str conversion, written in hex / binary / octal
+    # (the parser accepts them; the decimal spelling is refused and the line merely skipped)
+    for k, body in enumerate(["    MASK = 0x" + "f" * 4000 + "\n", "    k = Integer(0b1" + "01" * 8000 + ")\n", "    z = x + 0o7" + "1" * 5000 + "\n",
+                              "    big = [0x" + "a" * 3700 + ", 1]\n", "    n: int = -0x" + "9" * 3800 + "\n"]):
+        out.append((f"huge-constant-{k}", H + body + T))
+    out.append(("huge-constant-at-module-level", "from nada_dsl import *\n\nLIMIT = 0x" + "e" * 4200 + "\n\n" + H.split("\n\n", 1)[1] + T))
+    # `in` on another line than the loop target (a comment or a backslash after the target)
+    for k, body in enumerate(["    xs = [x for i  # 0, 1, 2\n          in range(3)]\n", "    for i \\\n            in range(3):\n        z = x + x\n",
+                              "    xs = [x for i \\\n in range(3)]\n", "    ys = [x for i in range(2) for j  # inner\n          in range(2)]\n",
+                              "    for i in (  # the bounds\n            range(3)):\n        z = x + x\n"]):
+        out.append((f"in-on-another-line-{k}", H + body + T))
     return out
 
 
